@@ -3,6 +3,7 @@ Import-free executable model of what `MrAndersonSimulator.run` (src/quantum_gate
 does with its arguments *around* the simulation proper:
 
   run                      -> `run`  = `precheck` ; (simulation, a parameter) ; `normalise` ; `measurement`
+  _perform_simulation      -> only its accumulation `r_sum += shot ; r_mean = r_sum / shots` (`meanOfShots`)
   _process_layout          -> `processLayout`
   "None qubit measured"    -> second step of `precheck`
   _validate_input_of_run   -> `validate` (the code after repair D20) and `validateUnrepaired` (the pinned tree)
@@ -196,6 +197,16 @@ def total {α : Type} (num : Num α) (r : List α) : α := r.foldl num.add num.z
 def normalise {α : Type} (num : Num α) (r : List α) : Except Err (List α) :=
   let t := total num r
   if num.pos t then .ok (r.map fun x => num.div x t) else .error .assertionError
+
+/-! ## `_perform_simulation`: accumulation over the shots (sequential branch) -/
+
+/-- `r_sum += shot_result` for arrays of equal length -/
+def addVec {α : Type} (num : Num α) (a b : List α) : List α := List.zipWith num.add a b
+
+/-- `r_sum = np.zeros(2**nqubit)`; `for arg in arg_list: r_sum += _single_shot(arg)`; `r_mean = r_sum / shots`.
+`len = 2**nqubit`, `shotsVal` = `shots` as a number, `results` = what `_single_shot` returned, in order. -/
+def meanOfShots {α : Type} (num : Num α) (len : Nat) (shotsVal : α) (results : List (List α)) : List α :=
+  (results.foldl (addVec num) (List.replicate len num.zero)).map fun x => num.div x shotsVal
 
 /-! ## `_measurament` -/
 
